@@ -150,6 +150,40 @@ static void product(report& r)
         r.distinct(vf::hash_str(id));
     }
 
+    // with distributions and more coordinates than random numbers (map_dimensions != dimensions)
+    for (sz calls : {sz(2), sz(5)})
+    {
+        std::string const id = base + " wide_map_with_distribution calls=" + std::to_string(calls);
+        if (!r.want(id)) continue;
+        r.eval();
+        CE gen; gen.seed(77);
+        struct wide
+        {
+            T operator()(sz, std::vector<T> const& rn, std::vector<T>& coords, std::vector<sz> const&, std::vector<T>& dens, hep::multi_channel_map action) const
+            {
+                if (action == hep::multi_channel_map::calculate_coordinates) { for (sz k = 0; k != coords.size(); ++k) coords[k] = rn[0] / T(k + 1); return T(1); }
+                for (auto& dd : dens) dd = T(1);
+                return T(1);
+            }
+        };
+        struct wide_fn
+        {
+            T operator()(hep::multi_channel_point<T> const& p, hep::projector<T>& proj) const
+            {
+                if (g_marks) g_marks->push_back(g_draws());
+                proj.add(0, p.coordinates()[0], T(1));
+                return T(1.5);
+            }
+        };
+        std::vector<std::uint64_t> marks;
+        g_marks = &marks; CE::draws() = 0;
+        (void) hep::multi_channel_iteration(hep::make_multi_channel_integrand<T>(wide_fn(), 1, wide(), 3, 2, hep::make_dist_params<T>(2, T(0), T(1), "d")), calls,
+            std::vector<T>{T(0.5), T(0.5)}, gen);
+        g_marks = nullptr;
+        judge<T, E>(r, id, calls, 2, marks, CE::draws());
+        r.distinct(vf::hash_str(id));
+    }
+
     // stored generator == initial generator advanced by calls x per-call (plain standard engine)
     for (sz d : {sz(1), sz(3)})
     for (int pat : {1, 3})
